@@ -82,6 +82,9 @@ const (
 	KErc20Transfer TxKind = "erc20-transfer"
 	// KCreateValueHigh is a contract creation whose endowment the sender cannot afford (refused after admission)
 	KCreateValueHigh TxKind = "create-value-too-high"
+	// KCreateEmpty is a creation that succeeds and leaves EMPTY runtime code (init code = STOP); KCreateSuicide a constructor that self-destructs
+	KCreateEmpty   TxKind = "create-empty-code"
+	KCreateSuicide TxKind = "create-constructor-selfdestructs"
 )
 
 // Erc20BurnAmount / Erc20TransferAmount are the amounts moved by the two precompile kinds.
@@ -123,7 +126,7 @@ func DefaultGas(k TxKind) uint64 {
 		return 20999
 	case KBurn:
 		return 70000
-	case KCreateOK, KCreateFail, KCreateValueHigh:
+	case KCreateOK, KCreateFail, KCreateValueHigh, KCreateEmpty, KCreateSuicide:
 		return 200000
 	case KCosmosSend:
 		return 200000
@@ -184,6 +187,10 @@ func BuildTx(w *world.World, s TxSpec, b *big.Int) []byte {
 		data = createOKInit()
 	case KCreateFail:
 		data = createFailInit()
+	case KCreateEmpty:
+		data = []byte{asm.STOP}
+	case KCreateSuicide:
+		data = asm.New().SelfDestruct(AddrSink).Bytes()
 	case KCreateValueHigh:
 		data = createOKInit()
 		value = new(big.Int).Mul(big.NewInt(1000), new(big.Int).Exp(big.NewInt(10), big.NewInt(18), nil))
